@@ -973,7 +973,18 @@ class Evaluator:
             if isinstance(v, ast.Constant):
                 parts.append(Const(v.value))
             elif isinstance(v, ast.FormattedValue):
-                parts.append(self.eval(v.value, st))
+                val = self.eval(v.value, st)
+                spec = self.eval(v.format_spec, st) if v.format_spec is not None else None
+                if isinstance(val, Num) and val.is_const() and val.const().denominator == 1:
+                    val = Const(int(val.const()))
+                if isinstance(val, Const) and (spec is None or isinstance(spec, Const)) and v.conversion in (-1, 115, 114):
+                    # constant folding of a literal format
+                    try:
+                        txt = val.v if v.conversion == -1 else (str(val.v) if v.conversion == 115 else repr(val.v))
+                        val = Const(format(txt, spec.v if spec is not None else ''))
+                    except Exception:
+                        pass
+                parts.append(val)
         if all(isinstance(p, Const) for p in parts):
             return Const(''.join(str(p.v) for p in parts))
         return Term('fstring', parts, kind='str')
@@ -1193,6 +1204,8 @@ class Evaluator:
         if isinstance(v, Const):
             return v.v is not None
         if isinstance(v, Term):
+            if v.head in OPTIONAL_LIBS and v.kw('default') is None and len(v.args) < 2:
+                return False
             return v.head.startswith(('lib:', 'call:', 'stored', 'notnone', 'enter')) and v.head not in ('lib:next',)
         return False
 
@@ -1608,6 +1621,7 @@ BUILTINS = {'setattr', 'slice', 'len', 'int', 'float', 'abs', 'min', 'max', 'ran
             'AttributeError', 'Exception', 'TimeoutError', 'RuntimeError', 'NotImplementedError', 'StopIteration', 'callable',
             'divmod', 'pow', 'id', 'repr', 'format'}
 
+OPTIONAL_LIBS = {'lib:os.environ.get', 'lib:os.getenv', 'lib:re.match', 'lib:re.search', 'lib:re.fullmatch', 'lib:shutil.which'}   # None when absent
 MIRRORED_METHODS = {'repeat', 'cumsum', 'clip', 'argmin', 'argmax', 'searchsorted', 'nonzero', 'dot', 'squeeze', 'var', 'any', 'all', 'prod', 'cumprod',
                     'argsort', 'diagonal', 'trace', 'ptp'}
 MUTATING_METHODS = {'append', 'extend', 'insert', 'sort', 'fill', 'put', 'resize', 'pop', 'remove', 'clear', 'reverse',
@@ -1973,6 +1987,14 @@ def b_isinstance(ev, pos, kw, st, node):
 def b_getattr(ev, pos, kw, st, node):
     if len(pos) >= 2 and isinstance(pos[0], Obj) and isinstance(pos[1], Const) and isinstance(pos[1].v, str):
         return ev.getattr_val(pos[0], pos[1].v, st, node)
+    if len(pos) == 2 and not kw and isinstance(pos[0], Term) and pos[0].head == 'module' and isinstance(pos[1], Const) and isinstance(pos[1].v, str):
+        mi = ev.prog.modules.get(pos[0].args[0].v)
+        if mi is not None and not mi.is_pkg:
+            bound = pos[1].v in mi.functions or pos[1].v in mi.classes or pos[1].v in mi.constants or pos[1].v in mi.imports
+            star = any(isinstance(n, ast.ImportFrom) and any(a.name == '*' for a in n.names) for n in ast.walk(mi.tree))
+            if not bound and not star and not pos[1].v.startswith('__'):
+                ev.lib_event('builtins.getattr', pos, kw, None, st, node, NONE)
+                raise _PyRaise('AttributeError')
     return Term('getattr', pos, kind='unknown')
 
 
